@@ -31,6 +31,10 @@ def run(tier, seed):
         c19_timer = None
     if c19_timer:
         c19_timer.machine(rep, tier, seed)
+    # the way of a trigger from the scheduler through the main loop's single-slot hand-over to the worker (real runtime)
+    from props import runtime
+    rep.assumptions += runtime.ASSUME
+    runtime.judge(rep, PID, tier, seed)
     return rep.finish()
 
 
@@ -40,7 +44,10 @@ def replay(path, seed):
     payload = json.load(open(path))
     wd = vlib.scratch_dir("c19r")
     try:
-        if payload.get("kind") == "timeout-line":
+        if payload.get("kind") == "runtime-run":
+            from props import runtime
+            runtime.replay(rep, payload, seed)
+        elif payload.get("kind") == "timeout-line":
             formula(rep, "quick", seed, replay_in=tables.replay_line(payload, wd))
         else:
             from props import c19_timer
